@@ -1644,7 +1644,7 @@ def proof_stage(ck):
     return ok, failing
 
 
-EXPECT_THEOREMS = 43
+EXPECT_THEOREMS = 48
 
 
 def run(ck):
